@@ -289,8 +289,54 @@ def c17_extra(tier, seed, lean):
 # --------------------------------------------------------------------------------------------------------------
 # C13: conversion monitor and requirement probes on the real header
 # --------------------------------------------------------------------------------------------------------------
+def c13_pre(tier, seed):
+    rows, err = tables.memcpy_table('c++17', 'g++')
+    if err:
+        return [dict(theorem='(table) memcpy eligibility', why='the memcpy-eligibility table program does not compile against the header: ' + err[-800:])]
+    tables.write_memcpy_lean(rows, 'g++ -std=c++17')
+    return []
+
+
+def c13_tables(tier, res):
+    """the header's memcpy verdicts must not depend on the standard / compiler (value and pointer pairs), and must be
+    sound under each of them: a pair deemed memcpy-able whose static_cast changed a sampled representation is a
+    concrete failing input"""
+    builds = [('g++', 'c++17'), ('g++', 'c++20')] if tier == 'quick' else [('g++', 'c++11'), ('g++', 'c++14'), ('g++', 'c++17'), ('g++', 'c++20'), ('g++', 'c++2b'), ('clang++', 'c++17'), ('clang++', 'c++20')]
+    base = None
+    n = 0
+    for cxx, std in builds:
+        rows, err = tables.memcpy_table(std, cxx)
+        if err:
+            res['corr'].append(dict(why='memcpy-eligibility table (%s %s) does not compile: %s' % (cxx, std, err[-400:]), op='-', config=cxx + std, impl='', model='', case=[]))
+            continue
+        for names, parts in rows['V']:
+            n += 1
+            sel = any(parts[2])
+            if sel and not parts[3][0]:
+                res['w'].append(dict(msg='C13 %s -> %s is copied with memcpy/memmove (is_memcpyable / is_uninitialized_memcpyable) but static_cast<%s> changes the object representation of some source values (%s %s)'
+                                     % (names[0], names[1], names[1], cxx, std), op='memcpy table', config=cxx + std, case=[], impl=''))
+        for names, parts in rows['P']:
+            n += 1
+            if any(parts[1]) and (not parts[0][0] or parts[0][1] != 0):
+                res['w'].append(dict(msg='C13 %s* -> %s* is copied with memcpy although the conversion adjusts the address by %d (%s %s)' % (names[0], names[1], parts[0][1], cxx, std),
+                                     op='memcpy table', config=cxx + std, case=[], impl=''))
+        for names, parts in rows['I']:
+            n += 1
+            if parts[0][0] and not parts[0][1]:
+                res['w'].append(dict(msg='C13 iterator %s is classified contiguous for %s but does not address contiguous storage (%s %s)' % (names[1], names[0], cxx, std),
+                                     op='memcpy table', config=cxx + std, case=[], impl=''))
+        key = (rows['V'], rows['P'])
+        if base is None:
+            base = (key, cxx, std)
+        elif key != base[0]:
+            res['corr'].append(dict(why='the memcpy-eligibility verdicts differ between %s %s and %s %s' % (base[1], base[2], cxx, std), op='-', config=cxx + std, impl='', model='', case=[]))
+    res['evaluations'] += n
+    res['info']['c13_memcpy_table_rows'] = n
+
+
 def c13_extra(tier, seed, lean):
     res = dict(corr=[], w=[], evaluations=0, cases=0, distinct=0, samples=[], info={})
+    c13_tables(tier, res)
     d = os.path.join(vlib.CACHE, 'c13', vlib.sha(vlib.repo_fingerprint(), vlib.file_sha(glob.glob(os.path.join(vlib.VERIF, 'harness', '*.cpp')) + glob.glob(os.path.join(vlib.VERIF, 'harness', 'probes', '*.cpp'))))[:16])
     os.makedirs(d, exist_ok=True)
     builds = [('g++', 'c++17'), ('g++', 'c++20')] if tier == 'quick' else [('g++', 'c++11'), ('g++', 'c++14'), ('g++', 'c++17'), ('g++', 'c++20'), ('g++', 'c++2b'), ('clang++', 'c++17'), ('clang++', 'c++20')]
@@ -333,7 +379,7 @@ def c13_extra(tier, seed, lean):
                 res['w'].append(dict(msg='C13 requirement probe %s gives a wrong result (%s %s)' % (name, cxx, std), op=name, config=key, case=[], impl=''))
     res['distinct'] = len(checks) + res['cases']
     res['samples'] = [dict(conversion_checks_per_build=checks)]
-    res['info'] = dict(c13_builds=['%s %s' % b for b in builds], c13_conversion_checks=checks)
+    res['info'].update(c13_builds=['%s %s' % b for b in builds], c13_conversion_checks=checks)
     # prune old dirs
     root = os.path.join(vlib.CACHE, 'c13')
     ds = sorted((os.path.getmtime(os.path.join(root, x)), x) for x in os.listdir(root))
@@ -377,6 +423,26 @@ def c12_extra(tier, seed, lean):
     res['evaluations'] = core['lines']; res['cases'] = core['cases']; res['distinct'] = core['distinct']
     res['samples'] = [dict(config=x['config'], case=[l[:120] for l in x['case']], impl=x['impl'][:300], model=x['model'][:300]) for x in core['samples'][:2]]
     res['info'] = dict(c12_configs=core['configs'], c12_stats={k: v for k, v in core['stats'].items() if k.startswith('throws')})
+    return res
+
+
+def c14_extra(tier, seed, lean):
+    """growth near max_size (): the narrow-size_type runs of C12 reach the saturating branch of the growth function, which the
+    std::size_t configurations of the shared run never do; the harness growth monitor (>= required, >= 1.5x or max_size ())
+    watches every reallocating line of them"""
+    res = dict(corr=[], w=[], evaluations=0, cases=0, distinct=0, samples=[], info={})
+    if not lean['driver_ok']:
+        return res
+    core = c12_run(tier, seed)
+    res['w'] += core['w'].get('C14', [])
+    for k, lst in core['dis'].items():
+        ch = k.split('|')[0]
+        if ch == 'shape':
+            for d in lst:
+                if (' A' in d['impl'] or ' A' in d['model']) and ' @' not in d['op']:
+                    res['corr'].append(dict(d, channel=ch, why='narrow size_type: capacities after a reallocation differ between implementation and model'))
+    res['evaluations'] = core['stats'].get('reallocating_lines', 0)
+    res['info'] = dict(c14_narrow_size_type_configs=core['configs'], c14_reallocating_lines_near_max_size=core['stats'].get('reallocating_lines', 0))
     return res
 
 
@@ -505,6 +571,8 @@ def register(EXTRA, EXTRA_SEARCH, PRE):
     PRE['C20'] = c20_pre
     EXTRA['C12'] = c12_extra
     EXTRA['C13'] = c13_extra
+    EXTRA['C14'] = c14_extra
+    PRE['C13'] = c13_pre
     EXTRA['C17'] = c17_extra
     EXTRA['C18'] = c18_extra
     PRE['C18'] = c18_pre
